@@ -45,6 +45,29 @@ def empty_returns(pdb, ctx, fn):
                     rets = [x for x in walk(arm["body"]) if x.get("k") == "Ret"]
                     if rets and who in (P(0), P(1)):
                         out[who[1]] = ctx.term(rets[0]["e"])
+    # path form: `if a.is_empty() || b.degree().is_err() { return E }` and the like: a `return E` whose known facts say
+    # "operand k is empty" (alone, or as every alternative of one disjunction)
+    from .guards import facts as _facts
+
+    def _who(at):
+        if at[0] == "cmp" and at[1] == "==":
+            for k, C in ((0, CO0), (1, CO1)):
+                if {at[2], at[3]} == {LEN(C), num(0)}:
+                    return k
+        return None
+    for n in walk(fn["body"]):
+        if n.get("k") != "Ret" or n.get("e") is None or any(a.get("k") == "Closure" for a in ancestors(n)):
+            continue
+        for f_ in _facts(ctx, n):
+            ks = set()
+            if f_[0] == "or":
+                alts = [a_ for a_ in f_[1]]
+                if all(len(a_) == 1 and _who(a_[0]) is not None for a_ in alts):
+                    ks = {_who(a_[0]) for a_ in alts}
+            elif _who(f_) is not None:
+                ks = {_who(f_)}
+            for k in ks:
+                out.setdefault(k, ctx.term(n["e"]))
     return out
 
 
@@ -188,6 +211,13 @@ def run(rep, pdb, tier):
                 if pv is not None and pv[0] == "call" and str(pv[1]) == "%s::new" % PT and len(pv) == 3:
                     alloc = [pv[2]]
                     anode = [ctx.binds[tgt[1][1]].node]
+            if not alloc and tgt[0] == "var":
+                # a local buffer `let mut out = vec![zero; n]` that becomes the product's coefficient vector
+                pv = value_before(ctx, tgt, e.loops[0])
+                used = [x for x in effs if x.kind == "assign" and x.value == tgt and x.target[0] == "field" and x.target[2] == "coeffs"]
+                if pv is not None and len(used) == 1:        # (a moved Vec cannot be written afterwards: the move follows the loops)
+                    alloc = [pv]
+                    anode = [ctx.binds[tgt[1]].node]
             okl = len(alloc) == 1 and alloc[0][0] == "call" and str(alloc[0][1]).endswith("from_elem") and is_zero_term(alloc[0][2])
             if okl:
                 dv = alloc[0][3]
@@ -252,6 +282,39 @@ def run(rep, pdb, tier):
             ok = e.index == i and e.value == ("op", "+", ("idx", tgt, i), ("idx", CO0, src)) and (ro[1], ro[3], ro[4]) == (num(0), False, False) and hi_ok and cnt == src and okl
             tail = fn["body"].get("expr")
             ok = ok and tail is not None and ctx.term(tail) == result
+        if not ok and len(sets) == 1 and len(sets[0].loops) == 1 and sets[0].value[0] == "var":
+            # the repeated addition done in a local accumulator: `let mut s = zero; for _ in 0..i+1 { s += a[i+1] }; p[i] = s`
+            e = sets[0]
+            ro = for_range(ctx, e.loops[0])
+            i = ro[0]
+            tgt, acc = e.target, e.value
+            src = lin_add(i, num(1))
+            adds = [x for x in effs if x.kind == "assignop" and x.op == "+=" and x.target == acc and len(x.loops) == 2 and x.loops[0] is e.loops[0]]
+            plain = [x for x in effs if x.kind == "assign" and x.target == acc and len(x.loops) == 2 and x.loops[0] is e.loops[0] and
+                     x.value[0] == "op" and x.value[1] == "+" and x.value[2] == acc]
+            if not adds and len(plain) == 1:
+                class _A:       # `s = s + v` on a generic element type is `s += v`
+                    pass
+                a_ = _A()
+                a_.value, a_.loops = plain[0].value[3], plain[0].loops
+                adds = [a_]
+            if len(adds) == 1:
+                ri = for_range(ctx, adds[0].loops[1])
+                cnt = lin_add(lin_sub(ri[2], ri[1]), num(1 if ri[3] else 0)) if ri else None
+                a0 = value_before(ctx, acc, adds[0].loops[1])
+                if tgt[0] == "field":
+                    alloc = [x.value for x in effs if x.kind == "assign" and x.target == tgt]
+                    result = tgt[1]
+                else:
+                    v0 = value_before(ctx, tgt, e.loops[0])
+                    alloc = [v0] if v0 is not None else []
+                    result = ("call", "%s::new" % PT, tgt)
+                okl = len(alloc) == 1 and alloc[0][0] == "call" and str(alloc[0][1]).endswith("from_elem") and is_zero_term(alloc[0][2]) and alloc[0][3] == DEG0
+                hi_ok = ro[2] == DEG0 or (tgt[0] == "var" and ro[2] == LEN(tgt) and okl)
+                ok = e.index == i and adds[0].value == ("idx", CO0, src) and a0 is not None and is_zero_term(a0) and cnt == src and \
+                    (ro[1], ro[3], ro[4]) == (num(0), False, False) and hi_ok and okl and not ri[4]
+                tail = fn["body"].get("expr")
+                ok = ok and tail is not None and ctx.term(tail) == result
         rep.add("derivative", rule, ok, fn["body"], "", where=loc(fn["body"]))
     fn = pdb.fn("%s::derivative_n" % PT)
     rule = "derivative_n applies derivative exactly n times to a clone of self"
@@ -344,3 +407,8 @@ def run(rep, pdb, tier):
     rep.floor("delegation/", 5)
     rep.assumptions += ["the ring and calculus laws as equalities of values for all coefficient vectors follow from the definitional formulae checked here; they are not decided as value statements"]
     return {"delegating_impls": n_del}
+
+
+def _pos(n):
+    sp = n.get("sp")
+    return (sp[0], sp[1]) if sp else (0, 0)
